@@ -283,7 +283,7 @@ Section CacheRef.
   Proof.
     intros Ho HCR. pose proof HCR as (HC & HR & NR & ER & EL & ECoh).
     pose proof (cstep_ci V veq veq_refl veq_sym veq_trans fixed c o Ho HC) as HC'.
-    destruct o as [o| | | | | |]; cbn [cop_ok] in Ho; try contradiction.
+    destruct o as [o| | | | | | | | |]; cbn [cop_ok] in Ho; try contradiction.
     - cbn [cstep a_cstep fst snd] in *. split; [|reflexivity]. unfold CRb. cbn [c_t c_dp c_loaded a_D a_P a_R a_loaded a_coh].
       split; [exact HC'|]. split.
       + assert (Hok : op_ok V fixed (c_t c) o) by (destruct o; try contradiction; exact I).
@@ -336,7 +336,7 @@ Proof.
   pose proof (ci_inv _ _ _ HC') as I'. pose proof (ci_nd _ _ _ HC') as ND'.
   destruct (lens_exact N (veq_of kd) (c_t c') I') as ((_ & N1 & G1) & (_ & N2 & G2) & _).
   apply andb_true_intro; split; [apply andb_true_intro; split; [apply andb_true_intro; split|]|].
-  - destruct o as [o| | | | | |]; try reflexivity. destruct o; try reflexivity; contradiction.
+  - destruct o as [o| | | | | | | | |]; try reflexivity. destruct o; try reflexivity; contradiction.
   - apply ok_obs_observe; assumption.
   - unfold ok_cache, observe. cbn [o_real o_nerr o_dp o_des o_pu o_pd].
     apply andb_true_intro; split; [apply andb_true_intro; split; [apply andb_true_intro; split; [apply andb_true_intro; split|]|]|].
@@ -347,7 +347,7 @@ Proof.
       assert (L : c_loaded c' = true) by congruence.
       apply map_eqb_true; auto using NoDup_kv_sort. intros k. rewrite !get_kv_sort by assumption.
       rewrite G2. apply (ci_coh _ _ _ HC' L k).
-    + destruct o as [o| | | | | |]; try reflexivity.
+    + destruct o as [o| | | | | | | | |]; try reflexivity; try (cbn in Ho; contradiction).
       destruct (a_coh a' && (e =? 0)%Z) eqn:Eg; [|reflexivity].
       apply andb_true_iff in Eg. destruct Eg as [_ Ez]. apply Z.eqb_eq in Ez.
       destruct Hcov as (CovD & CovU). cbn [cstep] in EC.
